@@ -23,18 +23,21 @@ type c14Case struct {
 	Chunk int `json:"chunk"`
 	// PeerChunk: max chunk size configured on the receiving endpoint when it
 	// differs from the sender's (0: same as Chunk, -1: none).
-	PeerChunk  int             `json:"peer_chunk,omitempty"`
-	Lens       []int           `json:"lens"`
-	FromSrv    bool            `json:"from_srv"`
-	FwdMs      int             `json:"fwd_ms"`
-	RevMs      int             `json:"rev_ms"`
-	ResendMs   int             `json:"resend_ms"`
-	SendTOMs   int             `json:"send_to_ms,omitempty"` // 0: none
-	RecvTOMs   int             `json:"recv_to_ms,omitempty"` // 0: none
-	GapsMs     []int           `json:"gaps_ms,omitempty"`
-	FaultsFwd  []vnet.Decision `json:"faults_fwd,omitempty"`
-	FaultsRev  []vnet.Decision `json:"faults_rev,omitempty"`
-	DeadlineMs int             `json:"deadline_ms"`
+	PeerChunk int   `json:"peer_chunk,omitempty"`
+	Lens      []int `json:"lens"`
+	FromSrv   bool  `json:"from_srv"`
+	FwdMs     int   `json:"fwd_ms"`
+	RevMs     int   `json:"rev_ms"`
+	ResendMs  int   `json:"resend_ms"`
+	SendTOMs  int   `json:"send_to_ms,omitempty"` // 0: none
+	RecvTOMs  int   `json:"recv_to_ms,omitempty"` // 0: none
+	// RecvStartMs: the receiving application makes its first Recv call only
+	// after this long (a slow reader: the receive buffer fills up first).
+	RecvStartMs int             `json:"recv_start_ms,omitempty"`
+	GapsMs      []int           `json:"gaps_ms,omitempty"`
+	FaultsFwd   []vnet.Decision `json:"faults_fwd,omitempty"`
+	FaultsRev   []vnet.Decision `json:"faults_rev,omitempty"`
+	DeadlineMs  int             `json:"deadline_ms"`
 }
 
 // sendAttempt records one Send call: which message and how many of its chunks
@@ -138,6 +141,11 @@ func runC14(t *testing.T, c *c14Case) (res c14Result) {
 		if c.RecvTOMs > 0 {
 			rcv.SetRecvTimeout(ms(c.RecvTOMs))
 		}
+		if c.RecvTOMs < 0 {
+			// polling: the deadline has passed by the time Recv looks at it,
+			// whether or not chunks are buffered
+			rcv.SetRecvTimeout(time.Nanosecond)
+		}
 		done := make(chan struct{})
 		var wg sync.WaitGroup
 		wg.Add(2)
@@ -199,6 +207,9 @@ func runC14(t *testing.T, c *c14Case) (res c14Result) {
 		}()
 		go func() { // receiver
 			defer wg.Done()
+			if c.RecvStartMs > 0 {
+				time.Sleep(ms(c.RecvStartMs))
+			}
 			for {
 				b, err := rcv.Recv()
 				if err == nil {
@@ -219,6 +230,10 @@ func runC14(t *testing.T, c *c14Case) (res c14Result) {
 					case <-done:
 						return
 					default:
+					}
+					if c.RecvTOMs < 0 {
+						// poll again a little later
+						time.Sleep(ms(1 + c.FwdMs/4))
 					}
 					continue
 				}
@@ -463,9 +478,24 @@ func genC14(t *rapid.T) *c14Case {
 			c.SendTOMs = 1
 		}
 	case 2: // receive deadline
-		c.RecvTOMs = rapid.SampledFrom([]int{1, rtt / 2, rtt, rtt + 1, 2 * rtt, 3*rtt + 1, 10 * rtt}).Draw(t, "recv_to")
+		// (the one-way latency and latency + k round trips are the instants at
+		// which chunks arrive at a receiver that started waiting at time 0: a
+		// deadline that expires at the very instant a chunk arrives is the
+		// interesting coincidence)
+		c.RecvTOMs = rapid.SampledFrom([]int{-1, 1, c.FwdMs, c.FwdMs + rtt, rtt / 2, rtt, rtt + 1, 2 * rtt, 3*rtt + 1, 10 * rtt}).Draw(t, "recv_to")
 		if c.RecvTOMs == 0 {
 			c.RecvTOMs = 1
+		}
+		// A profile in which deadlines and arrivals keep meeting: one-byte
+		// chunks, a small window (arrivals are clocked by the round trip)
+		// and a deadline that divides the round trip.
+		if rapid.IntRange(0, 2).Draw(t, "coincide") == 0 && !big {
+			c.Chunk = rapid.SampledFrom([]int{1, 2}).Draw(t, "cchunk")
+			c.N = rapid.SampledFrom([]int{1, 2, 3}).Draw(t, "cn")
+			c.FwdMs = 20
+			c.RevMs = rapid.SampledFrom([]int{0, 20}).Draw(t, "crev")
+			rtt = c.FwdMs + c.RevMs
+			c.RecvTOMs = rapid.SampledFrom([]int{5, 10, 20}).Draw(t, "cto")
 		}
 		gapGen := rapid.SampledFrom([]int{0, 0, 1, rtt, 3 * rtt, 20 * rtt})
 		for range c.Lens {
@@ -475,6 +505,11 @@ func genC14(t *rapid.T) *c14Case {
 		delays := []int{0, 1, c.ResendMs / 2, c.ResendMs, 2 * c.ResendMs}
 		c.FaultsFwd = genScript(t, "f_fwd", 200, delays)
 		c.FaultsRev = genScript(t, "f_rev", 200, delays)
+	}
+	// a slow reader: the application starts reading several resend timeouts
+	// late, with more chunks on their way than the receive buffer holds
+	if mode == 0 && rapid.IntRange(0, 2).Draw(t, "slow_reader") == 0 {
+		c.RecvStartMs = c.ResendMs*rapid.SampledFrom([]int{1, 2, 3, 10}).Draw(t, "recv_start") + 1
 	}
 	c.DeadlineMs = 900000
 	return c
